@@ -64,6 +64,7 @@ pub struct Obs {
 }
 
 pub fn check(case: &Case) -> Result<Option<Obs>, (String, String)> {
+    if let ProgSpec::Model(m) = &case.spec { return check_model_image(case, m); }
     let source = match case.spec.source() { Some(s) => s, None => return Ok(None) };
     let ast = match vm::parse(&source) { Ok(a) => a, Err(_) => return Ok(None) };
     let program = match vm::compile(&ast) { Ok(p) => p, Err(_) => return Ok(None) };
@@ -174,6 +175,47 @@ pub fn check(case: &Case) -> Result<Option<Obs>, (String, String)> {
     Ok(Some(Obs { children, faults_fired: fired, hard_fired: 0 }))
 }
 
+/// A directly built, runnable model (the pool-size family: a minimal program padded with integer constants to exactly n entries,
+/// n chosen so that the image *starts* with bytes other tools treat as magic — `#!`, a byte-order mark, gzip/zip/ELF signatures,
+/// line ends, Ctrl-Z). The foreign node writes the image; the CLI must load it as the program it denotes, whatever the delivery.
+fn check_model_image(case: &Case, m: &foreign::FModel) -> Result<Option<Obs>, (String, String)> {
+    let program = match foreign::build_program(m) { Ok(p) => p, Err(_) => return Ok(None) };
+    let inproc = vm::run(&program, &vm::RunCfg { step_budget: 1_500_000, ..Default::default() });
+    if inproc.end == vm::RunEnd::Budget { return Ok(None); }
+    let dir = scratch_dir();
+    std::fs::write(dir.join("x.bc"), foreign::encode(m)).unwrap();
+    let args: Vec<&str> = if case.via_stdin { vec![case.action.as_str()] } else { vec![case.action.as_str(), "x.bc"] };
+    let mut clean = Child::new(case.profile, &args);
+    if case.via_stdin { clean.stdin = In::File("x.bc".into()); }
+    clean.shim = Some(ShimCfg { seed: case.hash_seed, ..Default::default() });
+    let clean_r = run_child(&dir, &clean);
+    let mut faulty = Child::new(case.profile, &args);
+    if case.via_stdin { faulty.stdin = In::File("x.bc".into()); }
+    let plan: String = if case.plan.contains('$') || case.plan.contains(":x:") || case.plan.contains(":y:") { String::new() } else { case.plan.clone() }; // transient plans only here
+    faulty.shim = Some(ShimCfg { seed: case.hash_seed, plan: plan.clone(), clock: None, junk: 0, budget: Some(4_000_000) });
+    let r = run_child(&dir, &faulty);
+    let _ = std::fs::remove_dir_all(&dir);
+    if r.exit == Exit::Timeout || clean_r.exit == Exit::Timeout { return Ok(None); }
+    let fired = r.trace.lines().filter(|l| l.starts_with("R ") && (l.ends_with("cut") || l.ends_with("-> E4"))).count() as u64;
+    let n = m.consts.len();
+    for (which, x) in [("fault-free", &clean_r), ("faulty", &r)] {
+        if case.action == "execute" {
+            let ok = inproc.end == vm::RunEnd::Ok;
+            if x.exit.is_success() != ok || x.stdout != inproc.output.as_bytes() {
+                return Err(("L4:fml_loads_foreign_image_as_other_program".into(), format!("`fml execute{}` ({} load, plan `{}`) of a foreign-written image with {} constants (first bytes {:02x} {:02x}): {} with {} bytes of stdout; the program it denotes {} with {} bytes",
+                    if case.via_stdin { " < x.bc" } else { " x.bc" }, which, plan, n, n & 0xff, (n >> 8) & 0xff, x.exit.show(), x.stdout.len(), if ok { "succeeds" } else { "fails" }, inproc.output.len())));
+            }
+        } else if !x.exit.is_success() || x.stdout != clean_r.stdout {
+            return Err(("L9:disassemble_rejects_or_differs".into(), format!("`fml disassemble` ({} load, plan `{}`) of a foreign-written image with {} constants: {} with {} bytes of stdout (fault-free: {} bytes)", which, plan, n, x.exit.show(), x.stdout.len(), clean_r.stdout.len())));
+        }
+    }
+    Ok(Some(Obs { children: 2, faults_fired: fired, hard_fired: 0 }))
+}
+
+/// Pool sizes whose little-endian u16 makes the image start like something else: line ends, Ctrl-Z, `#!`, byte-order marks,
+/// gzip / zip / ELF / `%P` / `<?` / `{"` signatures — plus the width boundaries.
+pub const MAGIC_POOL_SIZES: [usize; 24] = [2, 10, 13, 26, 255, 256, 257, 2560, 2570, 3338, 3341, 6656, 8483, 8995, 16188, 17791, 19280, 20517, 8827, 35615, 48111, 65279, 65534, 65535];
+
 fn minimise(case: &Case, oracle: &str) -> Case {
     let want = oracle.split(':').next().unwrap_or("").to_string();
     let still = |c: &Case| matches!(check(c), Err((o, _)) if o.split(':').next().unwrap_or("") == want);
@@ -205,7 +247,9 @@ pub fn run_layer_b(property: &str, seed: u64, tier: &str, ev: &mut Evidence) -> 
     corpus.extend(work::scale_templates().into_iter().map(|(_, s)| ProgSpec::Source(s)));
     let outs: Vec<(Case, Result<Option<Obs>, (String, String)>)> = par_map(n, |i| {
         let mut rng = Rng::for_case(seed, property, ENGINE, i as u64);
-        let spec = if i < corpus.len() { corpus[i].clone() } else {
+        let spec = if i >= corpus.len() && i < corpus.len() + MAGIC_POOL_SIZES.len() {
+            ProgSpec::Model(foreign::boundary_pool_model(MAGIC_POOL_SIZES[i - corpus.len()]))
+        } else if i < corpus.len() { corpus[i].clone() } else {
             let mut cfg = GenCfg::swarm(&mut rng);
             if cfg.strings == super::gen::StrRegime::Long { cfg.long_max = 20_000; cfg.stmts = cfg.stmts.min(6); }
             work::gen_source_spec(&mut rng, &cfg).0
@@ -259,7 +303,7 @@ pub fn run_layer_b(property: &str, seed: u64, tier: &str, ev: &mut Evidence) -> 
                 if o.hard_fired > 0 { with_hard += 1; }
                 if o.faults_fired > 0 {
                     with_faults += 1;
-                    ev.distinct.insert(digest_of(&(digest_bytes(case.spec.source().unwrap_or_default().as_bytes()), case.profile, &case.writer, &case.action, case.via_stdin, &case.plan)));
+                    ev.distinct.insert(digest_of(&(digest_bytes(case.spec.to_json().to_string().as_bytes()), case.profile, &case.writer, &case.action, case.via_stdin, &case.plan)));
                     if ev.samples.len() < 6 && with_faults % 40 == 1 {
                         ev.sample(json!({"engine": ENGINE, "program_brief": case.spec.brief(), "profile": case.profile.name(), "image_written_by": case.writer, "action": case.action,
                             "via_stdin": case.via_stdin, "input_fd_plan": case.plan, "read_faults_fired": o.faults_fired}));
